@@ -187,15 +187,20 @@ class NormalTmpFileAssignmentLoader(BaseTmpFileAssignmentLoader):
         elif self.is_read_assignment():
             assert self.current_gene_info is not None
             assignment = ReadAssignment.deserialize(self.loader, self.current_gene_info)
-            if self.chr_record and assignment.genomic_region and \
-                    (assignment.genomic_region[0] < self.current_gene_info.all_read_region_start or
-                     assignment.genomic_region[1] > self.current_gene_info.all_read_region_end):
+            if self.chr_record and assignment.genomic_region:
                 # reads may stick out of the annotated genes: restore the reference of the whole processed region,
-                # as it was set when the reads were collected
-                self.current_gene_info.set_reference_sequence(
-                    min(assignment.genomic_region[0], self.current_gene_info.all_read_region_start),
-                    max(assignment.genomic_region[1], self.current_gene_info.all_read_region_end),
-                    self.chr_record)
+                # as it was set when the reads were collected; a read that crosses a split point of its cluster
+                # also sticks out of the processed region itself
+                window_start, window_end = assignment.genomic_region
+                if assignment.exons:
+                    window_start = min(window_start, assignment.exons[0][0])
+                    window_end = max(window_end, assignment.exons[-1][1])
+                if window_start < self.current_gene_info.all_read_region_start or \
+                        window_end > self.current_gene_info.all_read_region_end:
+                    self.current_gene_info.set_reference_sequence(
+                        min(window_start, self.current_gene_info.all_read_region_start),
+                        max(window_end, self.current_gene_info.all_read_region_end),
+                        self.chr_record)
             self._read_id()
             return assignment
         else:
